@@ -96,9 +96,9 @@ fn c02_subscribe5_two_prop() { subscribe_body(true, true, false, true, 16) }
 fn c02_subscribe311() { subscribe_body(false, true, true, true, 16) }
 
 // @gv props=C02 tier=quick required=yes fns=write_subscribe_encoding_steps5,compute_subscribe_packet_length_properties5
-// @gv bounds="SUBSCRIBE/MQTT5 with a subscription identifier (symbolic) and a user property value of 130 bytes: property section and remaining length both cross the one-byte VBI boundary"
+// @gv bounds="SUBSCRIBE/MQTT5 with a subscription identifier (symbolic) and a user property value of 120 bytes: the user property alone takes 126 bytes of the property section, the identifier property (2..5 bytes) pushes it across the one-byte VBI boundary"
 // @gv timeout=1200 mem=5
 #[kani::proof]
 #[kani::unwind(18)]
 #[kani::stub(std::fmt::format, stub_format)]
-fn c02_subscribe5_vbi_boundary() { subscribe_body_len(true, false, true, true, 16, 130) }
+fn c02_subscribe5_vbi_boundary() { subscribe_body_len(true, false, true, true, 16, 120) }
